@@ -156,6 +156,7 @@ def cases(rng, tier):
     yield from file_cases(rng, tier)
     yield from file_state_matrix(rng, tier)
     yield from file_key_cases(rng, tier)
+    yield from refail_cases(rng, tier)
     # (6) imports that cannot succeed
     yield from import_cases(rng, tier)
     # (8) the same callees invoked *by a built-in* instead of a call expression: as ㄱㄹ continuation and handler (called
@@ -248,6 +249,22 @@ def file_key_cases(rng, tier):
                 a = "(" + op.format(f="ㄱㅇㄱ", n=enc(n_), b=render(bytes_lit(b"xy")), s=render(str_lit("s"))) + ")"
                 body = f"({a} {a} ㄴㅎㄷ) ({a} ({a} ㄴ ㅅㅈㅎㄷ) ㅎㄴ) (({a} ㅁㄹㅎㄴ) ({a} ㅁㄹㅎㄴ) ㄴㅎㄷ) ({a} (ㄱ ㅈ ㄱㅇㄱ ㅎㄷ) ㄴㅎㄷ) ㅁㄹㅎㅁ ㄱㅅㅎㄴ"
                 yield Case(program=f"{render(str_lit('f.bin'))} {mode} ㄱㄴㅎㄷ ({body} ㅎ) ㄱㄹㅎㄷ", fs=fs, tag='file-action-key')
+
+
+def refail_cases(rng, tier):
+    """a failing element of a *shared* lazy collection is intercepted once (ㅅㄷ) and the collection is then touched again —
+    printed, compared, keyed, indexed, spread: the remembered failure is raised again as a language exception each time
+    (seeded change S04j answered a remembered failure as if it were a value: host AttributeError)"""
+    bads = ["(ㄱ ㄱ ㄴㄴㅎㄷ)", "(ㄴ ㄷㅂㅎㄴ ㄷㅈㅎㄴ)", "(ㅂㄱㅎㄱ ㅎㄱ)", "(ㅈㅈㅈㅈㅈ ㅎㄱ)", "(ㄹ ㅇㄱ)"]
+    wraps = ["({B} ㅁㄹㅎㄴ)", "(ㄴ {B} ㅁㄹㅎㄷ)", "(ㄴ {B} ㅅㅈㅎㄷ)", "(({B} ㅁㄹㅎㄴ) ㅁㄹㅎㄴ)", "({B} ㅁㄹㅎㄴ ㄷㅂㅎㄴ)"]
+    firsts = ["((ㄱ ㄱㅇㄱ ㅎㄴ) (ㄱ ㅎ) ㅅㄷㅎㄷ)", "((ㄱㅇㄱ ㅁㅈㅎㄴ) (ㄱ ㅎ) ㅅㄷㅎㄷ)", "((ㄱㅇㄱ ㄱㅇㄱ ㄴㅎㄷ) (ㄱ ㅎ) ㅅㄷㅎㄷ)", "((ㄱㅇㄱ ㄱㅅㅎㄴ) (ㄱ ㅎ) ㅅㄷㅎㄷ)"]
+    thens = ["ㄱㅇㄱ", "(ㄱㅇㄱ ㄱㅇㄱ ㄴㅎㄷ)", "(ㄱ ㄱㅇㄱ ㅎㄴ)", "(ㄱㅇㄱ ㄴ ㅅㅈㅎㄷ)", "(ㄱㅇㄱ ㅈㄷㅎㄴ)", "(ㄱㅇㄱ ㄱㅅㅎㄴ)", "((ㄱㅇㄱ ㅁㅈㅎㄴ) (ㄴ ㅎ) ㅅㄷㅎㄷ)",
+             "((ㄱㅇㄱ ㄱㅇㄱ ㄴㅎㄷ) (ㄱㅇㄱ ㅎ) ㅅㄷㅎㄷ)"]
+    for b in bads:
+        for wr in wraps:
+            for f1 in (firsts if tier != 'quick' else rng.sample(firsts, 2)):
+                for th in (thens if tier != 'quick' else rng.sample(thens, 3)):
+                    yield Case(program=f"{wr.replace('{B}', b)} ({f1} {th} ㅁㄹㅎㄷ ㅎ) ㅎㄴ", tag='refail-shared')
 
 
 def import_cases(rng, tier):
